@@ -32,8 +32,7 @@ Lemma ex_augment : (2 <= 3)%nat /\ wf_body 3 ex_body /\ (0 <= 0 /\ -1 <= 0) /\
   exists b', augment2d R_ops 3 (1/5) (1/5) (1/5) (@mkD R_ops (1/10) 1 0 (-1/4)) ex_body = Ok b'.
 Proof. split; [lia|]. split; [exact ex_wf|]. split; [lra|]. rewrite augment_as_matmul by lia. eauto. Qed.
 Lemma ex_focus : wf_body 3 ex_body /\ exists r, focus R_ops R_ceil 3 ex_body = Ok r.
-Proof. split; [exact ex_wf|]. apply focus_defined; [lia|]. intros d Hd.
-  destruct d as [|[|[|d]]]; try lia; cbn; discriminate. Qed.
+Proof. split; [exact ex_wf|]. apply focus_defined; [lia | exact ex_wf | reflexivity]. Qed.
 Lemma ex_bbox : wf_body 3 ex_body /\ exists b', bbox R_ops 3 3 [2; 1]%nat ex_body = Ok b'.
 Proof. split; [exact ex_wf|]. apply bbox_defined; cbn; lia. Qed.
 (* both kinds of box occur in the example: the first component has an observed point, the second has none *)
